@@ -219,6 +219,9 @@ def body_introns(ch, ctx):
         seq = sorted(exs) if order == "asc" else sorted(exs, reverse=True)
         for j, (a, b) in enumerate(seq):
             lines.append("c1\ts\texon\t%d\t%d\t.\t%s\t.\tID=%s_e%d_%d;Parent=%s;num=%d;lvl=2,10" % (a, b, strand, t, a, b, t, 10 - j))
+    # a child of t1 with an exon of its own (as in primary_transcript -> miRNA -> exon): that exon belongs to mi1, not to t1
+    lines.append("c1\ts\tmiRNA\t90\t95\t.\t%s\t.\tID=mi1;Parent=t1" % strand)
+    lines.append("c1\ts\texon\t90\t95\t.\t%s\t.\tID=mi1_e;Parent=mi1;num=1;lvl=2,10" % strand)
     lines.append("c1\ts\tmRNA\t30\t40\t.\t%s\t.\tID=t3;Parent=g1" % strand)          # a transcript with a CDS but no exon at all
     lines.append("c1\ts\tCDS\t31\t39\t.\t%s\t0\tID=t3c;Parent=t3" % strand)
     path = dbutil.write_text(ctx.fresh_dir(), "in.gff", "\n".join(lines) + "\n")
